@@ -149,6 +149,9 @@ def run_st(pu, spec, B, script, schedule, rng, wall=20.0, fallback='random'):
                 except StopIteration:
                     outcome = ('end',)
                     break
+                # the item has left the queue but is not yet with the consumer: other threads may run in this window (the model has
+                # it too: C1 -> C2 -> C3), so "pulled - delivered" is measured at its widest
+                s.yield_point('C2')
                 x = unpay(x)
                 delivered.append(x)
                 s.emit('deliver', x)
